@@ -38,6 +38,10 @@ def _cell(rng, col, profile):
             return str(rng.randint(0, 9))
         if col == 'd':
             return rng.choice(['p q', 'r', 's t u', '', 'v,w'])
+    if profile == 'containers' and col == 'd':
+        return rng.choice([{'p': 1}, {'q': 2}, {}, {'p': 3, 'q': 4},
+                           [1, 2], [5], [], None, {'p': None},
+                           (7, 8)])
     if profile == 'int':
         if col in ('b', 'e', 'd'):
             return rng.randint(0, 4)
